@@ -357,7 +357,7 @@ def mk_case(n, deps, ops, par, inputs=None, panic_at=None, jitter=0, timeout_ms=
 # ---------------------------------------------------------------- Coq case terms
 # which completion / wake-up protocol the working tree has (Model/IncExec.v wfix); flip with the fix commit
 # (VERIF_INC_REPAIRED=1 overrides, for trying the check against a repaired scratch copy)
-REPAIRED = os.environ.get("VERIF_INC_REPAIRED", "0") == "1"
+REPAIRED = os.environ.get("VERIF_INC_REPAIRED", "1") == "1"
 
 HEADER = ("From Coq Require Import List Arith Bool NArith.\nImport ListNotations.\n"
           "From PV Require Import Common.Corr Model.IncExec.\n")
